@@ -4,6 +4,7 @@ Static clauses (exact for the mechanism the property names):
   H-SER   no RandomState hash container with a derived Serialize inside an IR value the lowering can construct (its CBOR
           encoding follows iteration order)
   H-ITER  no order-dependent consumption of a hash container in the closure of parse_string / analyze / lower / to_bytes / emit_tii
+          (iteration that feeds an ordered result, *and* a variable assigned on some iterations and read on later ones)
   H-JSON  the TII file is written from a serde_json::Value whose maps are sorted (serde_json without `preserve_order`)
   H-SRC   no other nondeterminism source (time, randomness, environment, threads, explicit RandomState) in the closure of
           parse / analyze / lower / to_bytes
